@@ -42,7 +42,7 @@ Proof. exact SendProofs.tx_interval_frame. Qed.
    "monitor usage <= acquired credit, sum of acquired credit + available = total = largest MAX_DATA"
    is re-established *)
 Theorem C03_packet_within_limits : forall salt n k m t cap cons md k' fs,
-  SendProofs.INV03 n k m -> cap < 65536 ->
+  SendProofs.INV03 n k m -> cap < cap_bound ->
   conn_transmit salt k t cap cons md = (k', fs) ->
   exists m', chk_frames (chk03 salt n) n m fs = Some m' /\ SendProofs.INV03 n k' m'.
 Proof. exact SendProofs.conn_transmit_ok. Qed.
